@@ -1,4 +1,119 @@
 package main
 
-// runMutants is filled in by mutants support (overlay-based self-test); see mutate.go.
-func runMutants(pc *PropCheck, r *Report) {}
+// mutants.go: overlay-based self-test (thorough tier). Each mutant is a small textual edit of one
+// source file, applied in memory through go/packages' Overlay (nothing is written to disk); the
+// property's rules must report a violation of the expected rule on the edited program. A mutant
+// whose anchor text is no longer present, or that no longer type-checks, is skipped (reported as
+// such): the self-test never turns into an alarm about /repo.
+
+import (
+	"encoding/json"
+	"fmt"
+	"os"
+	"path/filepath"
+	"strings"
+)
+
+type Mutant struct {
+	Name   string `json:"name"`
+	File   string `json:"file"` // relative to the repository
+	Old    string `json:"old"`
+	New    string `json:"new"`
+	Expect string `json:"expect"` // rule id prefix expected to fire
+	Why    string `json:"why,omitempty"`
+}
+
+func runMutants(pc *PropCheck, base *Prog, r *Report) {
+	data, err := os.ReadFile(filepath.Join(verifDir, "mutants", pc.ID+".json"))
+	if err != nil {
+		return
+	}
+	var ms []Mutant
+	if err := json.Unmarshal(data, &ms); err != nil {
+		fatalf("mutants/%s.json: %v", pc.ID, err)
+	}
+	for _, m := range ms {
+		res := MutantResult{Name: m.Name, Rule: m.Expect}
+		path := filepath.Join(repoDir, m.File)
+		src, err := os.ReadFile(path)
+		if err != nil || strings.Count(string(src), m.Old) != 1 {
+			res.Reported = "skipped: anchor text not present exactly once in " + m.File
+			r.Mutants = append(r.Mutants, res)
+			continue
+		}
+		edited := strings.Replace(string(src), m.Old, m.New, 1)
+		prog, err := Recheck(base, map[string][]byte{path: []byte(edited)})
+		if err != nil {
+			res.Reported = "skipped: mutant does not type-check: " + err.Error()
+			r.Mutants = append(r.Mutants, res)
+			continue
+		}
+		sub := NewReport(pc.ID, "quick")
+		func() {
+			inMutant = true
+			defer func() {
+				inMutant = false
+				if x := recover(); x != nil {
+					if ap, ok := x.(anchorPanic); ok {
+						sub.Rule("anchor", "anchors resolve")
+						sub.Fail("anchor", "anchor", "", ap.msg)
+						return
+					}
+					panic(x)
+				}
+			}()
+			pc.Run(prog, sub)
+		}()
+		known := loadKnown()
+		var fired []string
+		for _, o := range sub.Obs {
+			if o.Status != "violation" {
+				continue
+			}
+			isKnown := false
+			for _, k := range known {
+				if k.Status == "known" && k.Property == pc.ID && k.Rule == o.Rule && k.Construct == o.Construct {
+					isKnown = true
+				}
+			}
+			if !isKnown {
+				fired = append(fired, o.Rule+":"+o.Construct)
+			}
+		}
+		for _, f := range fired {
+			if strings.HasPrefix(f, m.Expect) {
+				res.Caught = true
+			}
+		}
+		if len(fired) > 0 {
+			res.Reported = fired[0]
+			if len(fired) > 1 {
+				res.Reported += fmt.Sprintf(" (+%d more)", len(fired)-1)
+			}
+			if !res.Caught {
+				res.Reported = "fired other rule(s): " + res.Reported
+			}
+		} else {
+			res.Reported = "NOT CAUGHT"
+		}
+		r.Mutants = append(r.Mutants, res)
+	}
+	caught, applicable := 0, 0
+	for _, m := range r.Mutants {
+		if strings.HasPrefix(m.Reported, "skipped") {
+			continue
+		}
+		applicable++
+		if m.Caught {
+			caught++
+		}
+	}
+	r.Count("overlay_mutants_applicable", applicable)
+	r.Count("overlay_mutants_caught_by_expected_rule", caught)
+	fmt.Printf("%s thorough: overlay self-test: %d mutants, %d applicable, %d caught by the expected rule\n", pc.ID, len(r.Mutants), applicable, caught)
+	for _, m := range r.Mutants {
+		if !m.Caught {
+			fmt.Printf("  self-test note: mutant %q (expect %s): %s\n", m.Name, m.Rule, m.Reported)
+		}
+	}
+}
